@@ -2,6 +2,8 @@
   Layer B plumbing: rule parameters and violation actions arrive as key/value lists.
   wire:  key=<val>;key=<val>…      val = i<int> | s<codepoints> | t<cls>:<codepoints> | n (None)
                                         | l<val>,<val>,… (flat list) | b0 / b1
+                                        | d<key>~<val>|<key>~<val>… (nested dict, one level; insertion order kept)
+  a violation whose action is None (`get_action()` before any `set_action`) arrives as the single pair `__none__=b1`
 -/
 import VsgModel.Tok
 import VsgModel.Wire
@@ -15,6 +17,7 @@ inductive Val where
   | bool (b : Bool)
   | none
   | list (l : List Val)
+  | dict (d : List (String × Val))
   deriving Repr, Inhabited
 
 abbrev KV := List (String × Val)
@@ -87,6 +90,10 @@ partial def val (s : String) : Val :=
     | [c, v] => .tok { cls := c.toNat!, kind := kindOfCls c.toNat!, val := decStr v }
     | _ => .none
   | 'l' => .list (if rest.isEmpty then [] else (rest.splitOn ",").map val)
+  | 'd' => .dict (if rest.isEmpty then [] else (rest.splitOn "|").filterMap fun p =>
+      match p.splitOn "~" with
+      | [k, v] => some (k, val v)
+      | _ => Option.none)
   | _ => .none
 
 def kv (s : String) : KV :=
